@@ -18,7 +18,9 @@ RULE = ("a case is one session (one or two execute() calls on the same Executor/
         "underscore or dash spelling; consecutive calls biased to the same task under another name / the same, parent or "
         "child namespace), sometimes no name (the root default), pre/post tasks living in other sub-collections, task "
         "objects bound in two places, collection OBJECTS mounted under a second parent and/or name (45% of sessions; tasks "
-        "run through both paths, in both orders), delete / re-create scripts at depth 2-3 below one section spread over "
+        "run through both paths, in both orders), equal-but-distinct TWIN tasks (same name and function: wrapped twice / "
+        "deepcopy of the Task / factory twins) bound once each in different namespaces and run unnamed as pre/post tasks of "
+        "two main tasks in both orders, also across two execute() calls, delete / re-create scripts at depth 2-3 below one section spread over "
         "two tasks, the collections' own configuration() compared before/after the session, pre/post task objects the collection does not hold, bodies that record the deep view of context.config and then perform generated "
         "writes / deletions / nested edits / dict-protocol mutations and change os.environ for the following tasks; "
         "oracle per executed task: view = journal of all earlier tasks' edits replayed over the merge of the levels with "
@@ -246,7 +248,36 @@ def gen_session(rng, prepost=0.3):
             n = rng.choice(nodes)
             free = [x for x in TASK_NAMES + ["dup_b"] if x not in [t["name"] for t in n["tasks"]]]
             n["tasks"].append({"name": rng.choice(free), "aliases": [], "tag": tag})
+    twin = None
+    if rng.random() < 0.3:
+        # EQUAL-BUT-DISTINCT twin: a second Task object with the same name and the same function (wrapped twice /
+        # deepcopy of the Task / produced by the same factory), bound exactly once, in ANOTHER namespace
+        t1 = rng.choice(tags)
+        home = next(n for n, _ in real_nodes(tree) if any(t["tag"] == t1 for t in n["tasks"]))
+        nm = next(t["name"] for t in home["tasks"] if t["tag"] == t1)
+        others = [(n, here) for n, here in real_nodes(tree)
+                  if n is not home and nm not in [t["name"] for t in n["tasks"]] + [x["name"] for x in n["subs"]]]
+        if others:
+            n2, here2 = rng.choice(others)
+            t2 = ".".join(list(here2) + [nm]) + "~twin"
+            n2["tasks"].append({"name": nm, "aliases": [], "tag": t2})
+            bodies[t2] = {"pre": [], "post": [], "ops": copy.deepcopy(bodies[t1]["ops"]), "twin_of": t1,
+                          "twin_kind": rng.choice(["same_fn", "same_fn", "deepcopy", "factory"])}
+            twin = (t1, t2)
+            tags = sorted(bodies)
     bindings, resolve, names, coll = index_tree(tree)
+    if twin:
+        # both twins are used WITHOUT an invocation name: as pre / post tasks of two different main tasks
+        mains = [x for x in tags if x not in twin and not bodies[x].get("twin_of")]
+        if len(mains) >= 2:
+            m1, m2 = rng.sample(mains, 2)
+            bodies[m1][rng.choice(["pre", "post"])].append(twin[0])
+            bodies[m2][rng.choice(["pre", "post"])].append(twin[1])
+            twin = twin + (m1, m2)
+        else:
+            bodies[twin[1]]["twin_kind"] = "factory"  # (nothing to share: an independent equal task)
+            twin = None
+    twin_src = {b["twin_of"] for b in bodies.values() if b.get("twin_kind") in ("same_fn", "deepcopy")}
     if rng.random() < prepost:
         for _ in range(rng.randint(1, 2)):
             t = rng.choice(tags)
@@ -257,7 +288,7 @@ def gen_session(rng, prepost=0.3):
                 cands = [x for x in tags if x != t]
                 far = [x for x in cands if coll[x] != coll[t]]
                 other = rng.choice(far if far and rng.random() < 0.7 else cands or [t])
-            if other != t and not bodies[other]["pre"] and not bodies[other]["post"] and not any(
+            if other != t and t not in twin_src and not bodies[other]["pre"] and not bodies[other]["post"] and not any(
                     t in bodies[x]["pre"] + bodies[x]["post"] for x in bodies):
                 bodies[t][rng.choice(["pre", "post"])].append(other)
     with_pp = [t for t in tags if bodies[t]["pre"] or bodies[t]["post"]]
@@ -284,6 +315,19 @@ def gen_session(rng, prepost=0.3):
         if rng.random() < 0.08 and default_binding(tree):
             req = []
         calls.append(req)
+    if twin:
+        pair = [rng.choice(names[twin[2]]), rng.choice(names[twin[3]])]
+        rng.shuffle(pair)
+        calls = [c for c in calls if c] or [[]]
+        if rng.random() < 0.4:
+            calls = [calls[0] + [pair[0]], (calls[1] if len(calls) > 1 else []) + [pair[1]]]  # two execute() calls
+        else:
+            k = rng.randint(0, len(calls[0]))
+            calls[0] = calls[0][:k] + [pair[0]] + calls[0][k:]
+            k = rng.randint(0, len(calls[-1]))
+            calls[-1] = calls[-1][:k] + [pair[1]] + calls[-1][k:]
+        if rng.random() < 0.3:
+            calls[-1] = calls[-1] + [rng.choice(pair)]
     env0 = {}
     if rng.random() < 0.5:
         for _ in range(rng.randint(1, 3)):
@@ -411,9 +455,18 @@ def run_session(case):
         for t in node["tasks"]:
             info.setdefault(t["tag"], t)
     # tasks without pre/post first so that the objects exist when referenced
-    for tag in sorted(case["bodies"], key=lambda t: bool(case["bodies"][t]["pre"] or case["bodies"][t]["post"])):
+    fns = {}
+    for tag in sorted(case["bodies"], key=lambda t: (bool(case["bodies"][t]["pre"] or case["bodies"][t]["post"]),
+                                                    bool(case["bodies"][t].get("twin_of")))):
         spec = case["bodies"][tag]
-        task_objs[tag] = Task(mk(tag), name=info[tag]["name"] if tag in info else tag, pre=[task_objs[p] for p in spec["pre"]],
+        kind, src = spec.get("twin_kind"), spec.get("twin_of")
+        if kind == "deepcopy":
+            task_objs[tag] = copy.deepcopy(task_objs[src])  # the function object is shared, the Task is new
+            continue
+        # same_fn: the SAME function wrapped a second time (it records under the twin group's tag); factory: a new
+        # closure of the same code
+        fns[tag] = fns[src] if kind == "same_fn" else mk(tag)
+        task_objs[tag] = Task(fns[tag], name=info[tag]["name"] if tag in info else tag, pre=[task_objs[p] for p in spec["pre"]],
                               post=[task_objs[p] for p in spec["post"]])
 
     byid = ensure_ids(case["tree"])
@@ -479,7 +532,10 @@ def judge(case, record, escaped, changed=()):
     first = cfglib.Ref({"defaults": case["defaults"], "overrides": case["overrides"]})
     rows = ["-#" + cfglib.canon(first.tree)]
     ref = first
-    if [t for t, _ in exp[:len(record)]] != [r[0] for r in record]:
+    def group(t):
+        b = case["bodies"][t]
+        return b["twin_of"] if b.get("twin_kind") in ("same_fn", "deepcopy") else t
+    if [group(t) for t, _ in exp[:len(record)]] != [r[0] for r in record]:
         return "executed %s, expected expansion %s" % ([r[0] for r in record], exp), "order", ops, rows
     for (tag, name), (_, view, environ, steps) in zip(exp, record):
         unheld, chains = candidates(case, tag, name)
@@ -567,6 +623,13 @@ def run(ctx):
                 out.hist["prepost_not_held_by_collection"] += (o not in bindings)
                 out.hist["prepost_bound_in_several_places"] += (len(bindings.get(o, [])) > 1)
         out.hist["tasks_bound_in_several_places"] += sum(1 for t in bindings if len(bindings[t]) > 1)
+        for t, b in case["bodies"].items():
+            if b.get("twin_of"):
+                out.hist["twin_sessions_" + b["twin_kind"]] += 1
+                ran_unnamed = [x for x in (t, b["twin_of"]) if any(
+                    x in case["bodies"][m]["pre"] + case["bodies"][m]["post"] for m in case["bodies"])]
+                out.hist["twin_sessions_both_twins_ran_unnamed"] += len(ran_unnamed) == 2
+                out.hist["twin_sessions_two_execute_calls"] += len(case["calls"]) > 1
         nm = sum(len(n.get("mounts", [])) for n, _ in real_nodes(case["tree"]))
         out.hist["sessions_with_collection_mounted_twice"] += nm > 0
         if nm:
